@@ -101,6 +101,7 @@ type frame struct {
 	done    map[*ssa.BasicBlock]int
 	pass    int
 	condConst map[*ssa.BasicBlock]bool
+	blockG    map[*ssa.BasicBlock]*Term
 }
 
 // Call symbolically executes fn with args under guard g and returns its result (nil, a Val, or *TupleV).
@@ -125,7 +126,7 @@ func (x *Exec) Call(fn *ssa.Function, args []Val, binds []Val, g *Term) Val {
 		x.FuncsSeen[fn.String()] = n
 	}
 	f := &frame{fn: fn, vals: map[ssa.Value]Val{}, pendG: map[*ssa.BasicBlock]*Term{}, pendPhi: map[*ssa.BasicBlock][]Val{},
-		retG: x.C.False, binds: binds, exitV: map[*loop]map[ssa.Value]Val{}, done: map[*ssa.BasicBlock]int{}, condConst: map[*ssa.BasicBlock]bool{}}
+		retG: x.C.False, binds: binds, exitV: map[*loop]map[ssa.Value]Val{}, done: map[*ssa.BasicBlock]int{}, condConst: map[*ssa.BasicBlock]bool{}, blockG: map[*ssa.BasicBlock]*Term{}}
 	if len(args) != len(fn.Params) {
 		fail("arity mismatch calling %s: %d vs %d", fn.String(), len(args), len(fn.Params))
 	}
@@ -196,6 +197,13 @@ func (x *Exec) runLoop(f *frame, L *loop) {
 	f.curLoop = L
 	defer func() { f.curLoop = saved }()
 	H := L.header
+	// loop entry: if the header's immediate dominator (outside the loop) is always followed by the header, the
+	// entry guard is exactly the dominator's guard
+	if d := H.Idom(); d != nil && f.li.inner[d] == L.parent && f.li.rejoins(d, H) {
+		if dg, ok := f.blockG[d]; ok && f.pendG[H] != nil {
+			f.pendG[H] = dg
+		}
+	}
 	if x.Reindex && L.bitscan != nil {
 		x.runBitscan(f, L)
 	} else {
@@ -392,8 +400,18 @@ func (x *Exec) runBlock(f *frame, b *ssa.BasicBlock) {
 	delete(f.pendG, b)
 	delete(f.pendPhi, b)
 	if g == nil || (g.IsConst() && g.C == 0) {
+		delete(f.blockG, b)
 		return
 	}
+	// a join whose immediate dominator is always followed by this block has exactly the dominator's guard
+	if len(b.Preds) > 1 && f.li.header[b] == nil {
+		if d := b.Idom(); d != nil && f.li.inner[d] == f.li.inner[b] && f.li.rejoins(d, b) {
+			if dg, ok := f.blockG[d]; ok {
+				g = dg
+			}
+		}
+	}
+	f.blockG[b] = g
 	f.g = g
 	for i, ins := range b.Instrs {
 		if phi, ok := ins.(*ssa.Phi); ok {
@@ -552,7 +570,7 @@ func (x *Exec) step(f *frame, b *ssa.BasicBlock, ins ssa.Instruction) {
 	case *ssa.Defer:
 		fnv, args := x.callOperands(f, &ins.Call)
 		f.defers = append(f.defers, deferred{g: f.g, call: &ins.Call, args: args, fn: fnv})
-	case *ssa.Go, *ssa.Send, *ssa.Select, *ssa.MakeChan:
+	case *ssa.Go, *ssa.Send, *ssa.Select:
 		fail("concurrency instruction %T in %s is not encodable", ins, f.fn.String())
 	case *ssa.Store:
 		p := x.operand(f, ins.Addr).(*PtrV)
@@ -607,6 +625,8 @@ func (x *Exec) value(f *frame, ins ssa.Value) Val {
 		at := types.NewArray(et, int64(cp.C))
 		o := x.newObj("make@"+f.fn.Name(), at, x.zero(at))
 		return &SliceV{Obj: o, Off: x.i64(0), Len: c.ZExt(n, 64), Cap: c.ZExt(cp, 64)}
+	case *ssa.MakeChan:
+		return &ChanV{NonNil: true} // channels are opaque; sends, receives and selects are not encodable
 	case *ssa.MakeMap:
 		fail("make(map) not supported")
 	case *ssa.FieldAddr:
@@ -1255,7 +1275,7 @@ func (x *Exec) builtin(f *frame, b *ssa.Builtin, call *ssa.CallCommon, args []Va
 		return x.appendSlice(f, call, args, p)
 	case "copy":
 		return x.copyBuiltin(f, args, p)
-	case "print", "println":
+	case "print", "println", "close":
 		return nil
 	case "ssa:wrapnilchk":
 		return args[0]
@@ -1336,10 +1356,10 @@ func (x *Exec) copyBuiltin(f *frame, args []Val, p token.Pos) Val {
 		return n
 	}
 	// bound on the number of copied elements
-	maxN := int(n.UMax())
-	if maxN > 4096 {
+	if n.UMax() > 4096 {
 		fail("copy with unbounded length in %s", f.fn.String())
 	}
+	maxN := int(n.UMax())
 	// read all sources first (memmove semantics), then write
 	vals := make([]Val, maxN)
 	for i := 0; i < maxN; i++ {
@@ -1372,6 +1392,7 @@ type loop struct {
 }
 
 type loopInfo struct {
+	rejoin map[[2]*ssa.BasicBlock]bool
 	order  []*ssa.BasicBlock          // RPO ignoring back edges
 	header map[*ssa.BasicBlock]*loop  // header -> loop
 	inner  map[*ssa.BasicBlock]*loop  // innermost loop containing the block
@@ -1600,3 +1621,48 @@ func isClearLowest(v ssa.Value, x ssa.Value) bool {
 
 // Note records a named counter for the evidence.
 func (x *Exec) Note(name string, v int) { x.Notes[name] += v }
+
+// rejoins reports whether every path from d (which dominates b) reaches b: no return, panic, loop back edge or
+// loop exit in between. Then the guard of b equals the guard of d.
+func (li *loopInfo) rejoins(d, b *ssa.BasicBlock) bool {
+	if li.rejoin == nil {
+		li.rejoin = map[[2]*ssa.BasicBlock]bool{}
+	}
+	key := [2]*ssa.BasicBlock{d, b}
+	if v, ok := li.rejoin[key]; ok {
+		return v
+	}
+	L := li.inner[d]
+	seen := map[*ssa.BasicBlock]bool{}
+	ok := true
+	var walk func(x *ssa.BasicBlock)
+	walk = func(x *ssa.BasicBlock) {
+		if !ok || x == b || seen[x] {
+			return
+		}
+		seen[x] = true
+		if len(x.Succs) == 0 {
+			ok = false // return or panic
+			return
+		}
+		for _, s := range x.Succs {
+			if s == d || s.Dominates(x) { // back edge
+				ok = false
+				return
+			}
+			if L != nil && !L.contains[s] { // leaves the loop
+				ok = false
+				return
+			}
+			if li.inner[s] != L && s != b {
+				// entering a nested loop: its exits are not tracked here
+				ok = false
+				return
+			}
+			walk(s)
+		}
+	}
+	walk(d)
+	li.rejoin[key] = ok
+	return ok
+}
